@@ -250,6 +250,41 @@ impl Recorder {
                         "idx": idx.map(|i| vec![i]).unwrap_or_default(),
                         "nnew": new.len()}));
                 }
+                Op::Nest { inner } => {
+                    let (ib, iidx) = self.build(inner);
+                    let gid = self.next_gid;
+                    self.next_gid += 1;
+                    #[cfg(feature = "parallel")]
+                    let ib = ib.with_pool(crate::record::shared_pool());
+                    let d = ib.build();
+                    let before = b.verif_layout();
+                    let sys = HNest { gid, inner_b: iidx, d, ctx: self.ctx.clone() };
+                    let out = catch_unwind(AssertUnwindSafe(|| b.add_thread_local(sys)));
+                    let after = b.verif_layout();
+                    let new = self.snapshot_new_addr(&before, &after);
+                    let idx = if new.len() == 1 {
+                        after.thread_local.iter().position(|x| x.0 == new[0]).map(|i| i + 1)
+                    } else {
+                        None
+                    };
+                    if let Some(a) = new.first() {
+                        self.addr2gid.insert(*a, gid);
+                    }
+                    self.sys.push(SysInfo {
+                        gid,
+                        builder: bidx,
+                        r: vec![],
+                        w: vec![],
+                        kind: "nest",
+                        inner: iidx,
+                        n: 1,
+                        addr: new.first().copied().unwrap_or(0),
+                    });
+                    self.events.push(json!({"ev":"nest","b":bidx,"id":gid,"inner":iidx,
+                        "out": if out.is_ok() {"ok"} else {"other"},
+                        "idx": idx.map(|i| vec![i]).unwrap_or_default(),
+                        "nnew": new.len()}));
+                }
                 Op::Add { r, w, deps, t, name } => {
                     let gid = self.next_gid;
                     self.next_gid += 1;
